@@ -27,8 +27,8 @@ Open Scope Z_scope.
 (* at most one thread is between winning callbackInProcess and clearing it (the event loop / SetCallbacks
    between the CAS and the spawn count for the goroutine they are about to start); OnData (g_run) executes
    only in such a thread, hence never twice at the same time *)
-Theorem C20_serial : forall cb0 inb nc scr ups sched,
-  let s := run sched (init cb0 inb nc scr ups) in
+Theorem C20_serial : forall cb0 inb nc scr ups sy sched,
+  let s := run sched (init_sy cb0 inb nc scr ups sy) in
   cz g_own (gors s) + e_proxy (epc s) + s_proxy (spc s) <= 1 /\ cz g_run (gors s) <= 1 /\
   (forall i j gi gj, nth_error (gors s) i = Some gi -> nth_error (gors s) j = Some gj ->
                      g_own gi = true -> g_own gj = true -> i = j).
@@ -39,8 +39,8 @@ Print Assumptions C20_serial.
    never stranded: the event loop is between its add and its CAS/spawn, or SetCallbacks is between installing
    the callbacks and its spawn, or a goroutine is between its store of 0 and its re-check of pending
    (GLdCs/GLen/GCas) — in each case that thread's next steps take the flag *)
-Theorem C20_no_strand : forall cb0 inb nc scr ups sched,
-  let s := run sched (init cb0 inb nc scr ups) in
+Theorem C20_no_strand : forall cb0 inb nc scr ups sy sched,
+  let s := run sched (init_sy cb0 inb nc scr ups sy) in
   cbset s = true -> pending s <> [] -> st s = c_streamOpened -> cstate s = 0 ->
   (forall i g, nth_error (gors s) i = Some g -> g_own g = false) ->
   (epc s = EChk \/ epc s = EGetCb \/ epc s = ECas \/ epc s = EWgAdd \/ epc s = ESpawn) \/
@@ -52,8 +52,8 @@ Print Assumptions C20_no_strand.
 (* corollary at quiescence (event loop idle, SetCallbacks not in progress, every goroutine finished) with
    callbacks installed and the stream open: nothing is left in pending or recvBuf and the bytes consumed by the
    OnData calls are exactly the bytes that arrived — whether they arrived before or after SetCallbacks *)
-Theorem C20_quiescent : forall cb0 inb nc scr ups sched,
-  let s := run sched (init cb0 inb nc scr ups) in
+Theorem C20_quiescent : forall cb0 inb nc scr ups sy sched,
+  let s := run sched (init_sy cb0 inb nc scr ups sy) in
   cbset s = true -> (spc s = SIdle \/ spc s = SDone) ->
   epc s = EIdle -> (forall i g, nth_error (gors s) i = Some g -> g = GExit) ->
   st s = c_streamOpened -> cstate s = 0 ->
@@ -62,8 +62,8 @@ Proof. exact quiescent. Qed.
 Print Assumptions C20_quiescent.
 
 (* order, exactly once *)
-Theorem C20_order_once : forall cb0 inb nc scr ups sched,
-  let s := run sched (init cb0 inb nc scr ups) in
+Theorem C20_order_once : forall cb0 inb nc scr ups sy sched,
+  let s := run sched (init_sy cb0 inb nc scr ups sy) in
   arrived s = concat (map snd (chunks s)) ++ concat (pending s) /\
   moved s = concat (map snd (filter fst (chunks s))) /\
   (st s <> c_streamClosed -> arrived s = consumed s ++ recv s ++ concat (pending s)).
@@ -72,28 +72,32 @@ Print Assumptions C20_order_once.
 
 (* once the state has left `opened` no further OnData begins, except the single one whose IsOpen()
    check had already passed (g_cb; at most one by C20_serial) *)
-Theorem C20_stop : forall cb0 inb nc scr ups sched sched',
-  let s := run sched (init cb0 inb nc scr ups) in
+Theorem C20_stop : forall cb0 inb nc scr ups sy sched sched',
+  let s := run sched (init_sy cb0 inb nc scr ups sy) in
   st s <> c_streamOpened ->
   let s' := run sched' s in
   st s' <> c_streamOpened /\ olen s' + cz g_cb (gors s') <= olen s + cz g_cb (gors s).
 Proof. exact stop. Qed.
 Print Assumptions C20_stop.
 
-(* ---- callbacks installed AFTER data arrived (AcceptStream then SetCallbacks): formerly refuted, now theorems ---- *)
-Theorem C20_late_no_strand : forall inb scr sched,
-  let s := run sched (init false inb 0 scr []) in
+(* ---- callbacks installed AFTER data arrived (AcceptStream, possibly synchronous Peek/ReadBytes of a part, then
+   SetCallbacks): formerly refuted, now theorems.  Unconsumed received bytes live in TWO places — pendingData
+   and recvBuf (a synchronous read moves everything pending into recvBuf) — and BOTH are covered: at quiescence
+   with callbacks installed nothing is left in either. ---- *)
+Theorem C20_late_no_strand : forall inb scr sy sched,
+  let s := run sched (init_sy false inb 0 scr [] sy) in
   cbset s = true -> spc s = SDone -> epc s = EIdle -> (forall i g, nth_error (gors s) i = Some g -> g = GExit) ->
-  st s = c_streamOpened -> cstate s = 0 -> pending s = [] /\ recv s = [].
+  st s = c_streamOpened -> cstate s = 0 ->
+  pending s = [] /\ recv s = [] /\ consumed s = arrived s.
 Proof.
-  intros inb scr sched s Hcb Hsp He Hg Hst Hcs.
-  destruct (quiescent false inb 0 scr [] sched Hcb (or_intror Hsp) He Hg Hst Hcs) as [H1 [H2 _]]. split; assumption.
+  intros inb scr sy sched s Hcb Hsp He Hg Hst Hcs.
+  exact (quiescent false inb 0 scr [] sy sched Hcb (or_intror Hsp) He Hg Hst Hcs).
 Qed.
 Print Assumptions C20_late_no_strand.
 
-Theorem C20_late_serial : forall inb scr sched,
-  let s := run sched (init false inb 0 scr []) in cz g_run (gors s) <= 1.
-Proof. intros inb scr sched. apply (serial false inb 0 scr [] sched). Qed.
+Theorem C20_late_serial : forall inb scr sy sched,
+  let s := run sched (init_sy false inb 0 scr [] sy) in cz g_run (gors s) <= 1.
+Proof. intros inb scr sy sched. apply (serial false inb 0 scr [] sy sched). Qed.
 Print Assumptions C20_late_serial.
 
 (* ---- do the bytes an OnData invocation was offered stay readable until it returns?  Not always. ----
@@ -107,14 +111,14 @@ Definition C20_view_stable : Prop := view_stable_stmt.
 Theorem C20_view_stable_refuted : ~ C20_view_stable.
 Proof.
   intros H.
-  specialize (H true [EData [1; 2; 3]; EData [4]] 1%nat [(3%nat, false)] []
+  specialize (H true [EData [1; 2; 3]; EData [4]] 1%nat [(3%nat, 0%nat)] [] []
                 ([WClo 0; WClo 0] ++ repeat WEv 6 ++ repeat (WGor 0) 3 ++ [WClo 0; WClo 0] ++ repeat WEv 3)).
   vm_compute in H. assert (E : [] = [1; 2; 3]) by (apply H; discriminate). discriminate.
 Qed.
 Print Assumptions C20_view_stable_refuted.
 (* the event loop touches recvBuf only in that closed path *)
-Theorem C20_view_stable_partial : forall cb0 inb nc scr ups sched,
-  let s := run sched (init cb0 inb nc scr ups) in
+Theorem C20_view_stable_partial : forall cb0 inb nc scr ups sy sched,
+  let s := run sched (init_sy cb0 inb nc scr ups sy) in
   st s <> c_streamClosed -> recv (step s WEv) = recv s.
 Proof. exact view_stable_partial. Qed.
 Print Assumptions C20_view_stable_partial.
@@ -124,7 +128,7 @@ Print Assumptions C20_view_stable_partial.
    open, and satisfies the hypotheses of C20_quiescent *)
 Example C20_example_run :
   let s := run (repeat WEv 6 ++ repeat (WGor 0) 3 ++ repeat WEv 4 ++ repeat (WGor 0) 12 ++ repeat WEv 3 ++ repeat (WGor 0) 40 ++ repeat WEv 6 ++ repeat (WGor 1) 12)
-               (init true [EData [1; 2]; EData [3]; EData [4; 5; 6]] 0 [(1%nat, false); (0%nat, false); (2%nat, false)] []) in
+               (init true [EData [1; 2]; EData [3]; EData [4; 5; 6]] 0 [(1%nat, 0%nat); (0%nat, 0%nat); (2%nat, 0%nat)] []) in
   cbset s = true /\ epc s = EIdle /\ st s = c_streamOpened /\ cstate s = 0 /\ pending s = [] /\ recv s = [] /\
   consumed s = [1; 2; 3; 4; 5; 6] /\ offers s <> [] /\ Forall (fun g => g = GExit) (gors s).
 Proof. vm_compute. repeat split; try discriminate; repeat constructor. Qed.
@@ -135,4 +139,14 @@ Example C20_late_example_run :
   let s := run ([WEv; WEv; WEv] ++ repeat WSet 4 ++ repeat (WGor 0) 12) (init false [EData [7]] 0 [] []) in
   cbset s = true /\ spc s = SDone /\ epc s = EIdle /\ st s = c_streamOpened /\ pending s = [] /\ recv s = [] /\
   consumed s = [7] /\ gors s = [GExit].
+Proof. vm_compute. repeat split. Qed.
+
+(* non-vacuity 3: one message [1..6] arrives; the user reads the 2-byte head synchronously (readMore moves the whole
+   message into recvBuf), then installs callbacks; nothing more arrives.  SetCallbacks starts the goroutine, which
+   offers the remaining [3;4;5;6] from recvBuf (pendingData is empty all along) *)
+Example C20_sync_head_then_callbacks :
+  let s := run ([WEv; WEv; WEv] ++ [WSync; WSync] ++ repeat WSet 4 ++ repeat (WGor 0) 12)
+               (init_sy false [EData [1; 2; 3; 4; 5; 6]] 0 [] [] [2%nat]) in
+  cbset s = true /\ spc s = SDone /\ epc s = EIdle /\ st s = c_streamOpened /\ pending s = [] /\ recv s = [] /\
+  offers s = [[3; 4; 5; 6]] /\ consumed s = [1; 2; 3; 4; 5; 6] /\ gors s = [GExit].
 Proof. vm_compute. repeat split. Qed.
